@@ -371,6 +371,11 @@ def run_property(modname, argv):
     if ctx.lean_ok and hasattr(mod, 'correspond'):
         try:
             mod.correspond(ctx)
+        except subprocess.TimeoutExpired as e:
+            # the model driver did not answer within its time limit: an infrastructure time-out, not a verdict
+            sys.stdout.write('%s: Lean driver time-out after %s s (exit 2, no verdict)\n' % (pid, e.timeout))
+            sys.stdout.flush()
+            os._exit(2)
         except Exception as e:
             ctx.break_('correspondence', 'harness', ''.join(traceback.format_exception(type(e), e, e.__traceback__))[-3000:])
         if ctx.disagreements:
